@@ -61,7 +61,10 @@ def cmp : Obj → Obj → R Int
     if a.length < b.length then pure (-1) else if a.length > b.length then pure 1 else cmpPairs a b
   | .ret a _, .ret b _ => cmp a b
   | .quote _, .quote _ => throw (.unmodelled "Cmp of quotes (ordered by printed form)")
-  | .ref .., .ref .. => throw (.goPanic "Cmp:REFERENCE")
+  -- the Go Cmp dereferences at every level; this pure function sees dereferenced TOP-LEVEL values only, so a
+  -- Reference stored inside a container (`[nil]` built inside a function) is outside the modelled subset
+  -- (`case REFERENCE: panic` in the Go Cmp is unreachable after `Value()`)
+  | .ref .., _ | _, .ref .. => throw (.unmodelled "Cmp of a reference nested in a container")
   | a, b => pure (if a.typeNum < b.typeNum then -1 else 1)
 def cmpList : List Obj → List Obj → R Int
   | a :: as, b :: bs => do
